@@ -38,6 +38,7 @@ import (
 
 var (
 	errChunkNotSupported = errors.New("reading / writing chunk of piece not supported")
+	errEmptyMessage      = errors.New("message has no body")
 )
 
 // Events defines Dispatcher events.
@@ -497,12 +498,25 @@ func (d *Dispatcher) feed(p *peer) {
 func (d *Dispatcher) dispatch(p *peer, msg *conn.Message) error {
 	switch msg.Message.Type {
 	case p2p.Message_ERROR:
+		if msg.Message.Error == nil {
+			return errEmptyMessage
+		}
 		d.handleError(p, msg.Message.Error)
 	case p2p.Message_ANNOUCE_PIECE:
+		if msg.Message.AnnouncePiece == nil {
+			return errEmptyMessage
+		}
 		d.handleAnnouncePiece(p, msg.Message.AnnouncePiece)
 	case p2p.Message_PIECE_REQUEST:
+		if msg.Message.PieceRequest == nil {
+			return errEmptyMessage
+		}
 		d.handlePieceRequest(p, msg.Message.PieceRequest)
 	case p2p.Message_PIECE_PAYLOAD:
+		if msg.Message.PiecePayload == nil {
+			closers.Close(msg.Payload)
+			return errEmptyMessage
+		}
 		d.handlePiecePayload(p, msg.Message.PiecePayload, msg.Payload)
 	case p2p.Message_CANCEL_PIECE:
 		d.handleCancelPiece(p, msg.Message.CancelPiece)
@@ -525,8 +539,8 @@ func (d *Dispatcher) handleError(p *peer, msg *p2p.ErrorMessage) {
 }
 
 func (d *Dispatcher) handleAnnouncePiece(p *peer, msg *p2p.AnnouncePieceMessage) {
-	if int(msg.Index) >= d.torrent.NumPieces() {
-		d.log().Errorf("Announce piece out of bounds: %d >= %d", msg.Index, d.torrent.NumPieces())
+	if msg.Index < 0 || int(msg.Index) >= d.torrent.NumPieces() {
+		d.log().Errorf("Announce piece out of bounds: %d not in [0, %d)", msg.Index, d.torrent.NumPieces())
 		return
 	}
 	i := int(msg.Index)
@@ -539,6 +553,11 @@ func (d *Dispatcher) handleAnnouncePiece(p *peer, msg *p2p.AnnouncePieceMessage)
 }
 
 func (d *Dispatcher) isFullPiece(i, offset, length int) bool {
+	if i < 0 || i >= d.torrent.NumPieces() {
+		// PieceLength is 0 for any index out of range, which a zero-length
+		// request / payload would otherwise match.
+		return false
+	}
 	return offset == 0 && length == int(d.torrent.PieceLength(i))
 }
 
